@@ -71,12 +71,33 @@ def Eds.Shaped (e : Eds) : Prop :=
     code does NOT check `column < width` -/
 def Eds.share? (e : Eds) (row col : Nat) : Option Share := e.shares[row * e.width + col]?
 
+/-- `iter.collect::<Option<Vec<_>>>()`: all elements, or `none` if one is missing -/
+def optAll {α} : List (Option α) → Option (List α)
+  | [] => some []
+  | none :: _ => none
+  | some x :: rest =>
+    match optAll rest with
+    | none => none
+    | some xs => some (x :: xs)
+
+/-- `iter.collect::<Result<Vec<_>, _>>()`: all elements, or the first error -/
+def exceptAll {ε α} : List (Except ε α) → Except ε (List α)
+  | [] => .ok []
+  | .error e :: _ => .error e
+  | .ok x :: rest =>
+    match exceptAll rest with
+    | .error e => .error e
+    | .ok xs => .ok (x :: xs)
+
+/-- coordinate of the `i`-th share of an axis -/
+def axisCoord (ax : Axis) (index i : Nat) : Nat × Nat :=
+  match ax with
+  | .row => (index, i)
+  | .col => (i, index)
+
 /-- `ExtendedDataSquare::axis(axis, index)`: `none` = `EdsIndexOutOfRange` -/
 def Eds.axis? (e : Eds) (ax : Axis) (index : Nat) : Option (List Share) :=
-  (List.range e.width).mapM (fun i =>
-    match ax with
-    | .row => e.share? index i
-    | .col => e.share? i index)
+  optAll ((List.range e.width).map (fun i => e.share? (axisCoord ax index i).1 (axisCoord ax index i).2))
 
 def Eds.row? (e : Eds) (i : Nat) : Option (List Share) := e.axis? .row i
 def Eds.col? (e : Eds) (i : Nat) : Option (List Share) := e.axis? .col i
@@ -135,8 +156,8 @@ def Dah.rowContains? (H : HashFn) (d : Dah) (row : Nat) (ns : Bytes) : Option Bo
 
 /-- `DataAvailabilityHeader::from_eds`: `.error` = the `expect("EDS validated on construction")` panic -/
 def Dah.ofEds (H : HashFn) (e : Eds) : Except AxisErr Dah :=
-  match (List.range e.width).mapM (fun i => e.rowRoot H i),
-        (List.range e.width).mapM (fun i => e.colRoot H i) with
+  match exceptAll ((List.range e.width).map (fun i => e.rowRoot H i)),
+        exceptAll ((List.range e.width).map (fun i => e.colRoot H i)) with
   | .ok rs, .ok cs => .ok ⟨rs, cs⟩
   | .error er, _ => .error er
   | _, .error er => .error er
